@@ -28,6 +28,7 @@ fn run_case(case: &Value) -> Value {
     let ridx = add_route(&mut ctx, 0, &acts);
     let route_ctx = &ctx.solution.routes[ridx];
     let before = dump_schedule(route_ctx);
+    let digest = route_ctx.state().verif_digest();
 
     let position = match &case["pos"] {
         Value::String(s) if s == "any" => InsertionPosition::Any,
@@ -56,7 +57,7 @@ fn run_case(case: &Value) -> Value {
         }
         InsertionResult::Failure(f) => json!({"ok": false, "code": f.constraint.0, "stopped": f.stopped}),
     };
-    json!({"before": before, "eval": res})
+    json!({"before": before, "eval": res, "digest": digest})
 }
 
 fn main() {
